@@ -10,7 +10,9 @@ import FxVerif.Model.Util
   model (`Model/C03Attest.lean`) with `H` = SHA-256; the answer is the result kind, the last observed nonce, the hash of
   the executed claim (if this vote made an attestation observed), the claim stored for `ExecuteClaim` and the attestation
   table of the nonce under vote; `pow <oracle> <power|none>` / `total <t>`: power changes between votes (delegation,
-  slashing, removal — environment); `run <nonce> <handlerFails>`: `ExecuteClaim`. -/
+  slashing, removal — environment); `run <nonce> <handlerFails>`: `ExecuteClaim`;
+* `akey <nonce> <hash hex>` / `pkey <nonce>`: the bytes of `GetAttestationKey` / `GetPendingExecuteClaimKey` from the regenerated
+  layouts. -/
 open FxVerif FxVerif.Util FxVerif.Model.C03
 
 def str (s : String) : Option Str := (unhex s).map (·.map Char.ofNat)
@@ -117,6 +119,11 @@ def opLine (d : DState) : List String → Option (DState × String)
     pure ({ d with st := stepWith [] (fun c => hashHex c.path) (fun _ _ => true) d.st (.setPower o pw) }, "ok")
   | ["total", t] => do
     pure ({ d with st := { d.st with total := (← t.toNat?) } }, "ok")
+  | ["akey", n, h] => do
+    -- `types.GetAttestationKey(n, h)`: the regenerated layout interpreted by the model
+    pure (d, hex (keyBytes (← n.toNat?) (← unhex h) FxVerif.Gen.C03.attestationKeyParts))
+  | ["pkey", n] => do
+    pure (d, hex (keyBytes (← n.toNat?) [] FxVerif.Gen.C03.pendingClaimKeyParts))
   | ["run", n, fails] => do
     let n ← n.toNat?
     let had := (d.st.pending.lookup n).isSome
